@@ -150,7 +150,7 @@ def gen_case(seeds, params, index):
     P = pool()
     nthreads = w.choice([2, 2, 2, 3, 3, 4])
     mix = w.choice(['same', 'same', 'different', 'mixed'])
-    eval_flavour = w.random() < 0.08
+    eval_flavour = w.random() < 0.12
     nst = 1 if mix == 'same' else w.choice([2, 3, 4])
     stmts = []
     for _ in range(nst):
@@ -200,6 +200,8 @@ def gen_case(seeds, params, index):
             ops.append([si, len(docs) - 1])
         tasks.append(ops)
     pol = s.choice(['random', 'random', 'pct', 'writes', 'writes'])
+    if eval_flavour and s.random() < 0.5:
+        pol = 'writes'      # module-level caches: target their read/write sites
     spec = {'policy': pol, 'seed': seeds.sub('sched'),
             'mean': s.choice([3, 30, 300, 3000]),
             'nswitch': s.randrange(1, 6)}
@@ -380,11 +382,13 @@ def run_world(case, stats, record=None):
     def evaluate(si, di, w=None):
         w = w or world
         st = w.stmts[si]
-        if st is None:
-            raise ValueError('unparsable statement')
         data = w.doc(di)
         if via_eval:
+            # texts that do not parse go through yaql.eval as well (its error
+            # path touches the module-level caches)
             return yaql.eval(case['stmts'][si]['expr'], data)
+        if st is None:
+            raise ValueError('unparsable statement')
         return st.evaluate(data=data, context=w.P.create_child_context())
 
     viols = []
@@ -421,6 +425,11 @@ def run_world(case, stats, record=None):
                                                for s in case['stmts']]}})
             return viols, info
         # ---- concurrent phase ----
+        if via_eval:
+            # same module-level state as before the baseline
+            yaql._cached_engine = world.engine
+            yaql._cached_expressions = {}
+            yaql._default_context = world.P
         if cold:
             snap0 = cworld.snapshot()
             if via_eval:
@@ -451,7 +460,8 @@ def run_world(case, stats, record=None):
                 # site-uniform: a rarely executed store (a module-level
                 # cache) is as likely to be chosen as a hot one
                 sites = sorted(counter.sites)
-                weights = [1.0 / counter.sites[x] for x in sites]
+                weights = [(8.0 if x in sched.GLOBAL_SITES else 1.0) /
+                           counter.sites[x] for x in sites]
                 tg = []
                 for _ in range(n):
                     if sites:
@@ -459,6 +469,8 @@ def run_world(case, stats, record=None):
                         tg.append([st_[0], st_[1],
                                    r.randrange(1, counter.sites[st_] + 1)])
                 spec['switch_at_w'] = tg
+            if spec.get('switch_at_w_override'):
+                spec['switch_at_w'] = spec['switch_at_w_override']
         info['measured'] = [counter.lines, counter.wpoints]
         baton = sched.Baton(
             sched_spec=spec, schedule=case.get('schedule'),
